@@ -751,7 +751,8 @@ def parse_val(out):
     if t[1]:
         for item in t[1].split(";"):
             p, ms = item.split(":")
-            m[bytes.fromhex(p).decode("latin-1")] = [bytes.fromhex(x).decode("latin-1") if x != "-" else "" for x in ms.split(",")]
+            key = bytes.fromhex(p).decode("latin-1") if p not in ("-", "") else ""
+            m[key] = [bytes.fromhex(x).decode("latin-1") if x != "-" else "" for x in ms.split(",")]
     return m, t[2]
 
 
